@@ -374,6 +374,50 @@ fn pkfk_cfg(gu: Act) -> Cfg {
     }
 }
 
+/// chain through a UNIQUE *non-key* column: p(id) ← c(id PK, pid UNIQUE) ← g(cpid → c.pid); an update of
+/// p.id cascades into c.pid, which is itself a referenced key (but not c's primary key)
+fn uniqchain_cfg(gu: Act) -> Cfg {
+    let schema = Schema {
+        tables: vec![
+            TableDecl { name: "P", cols: vec!["id"], defaults: vec![N] },
+            TableDecl { name: "C", cols: vec!["id", "pid"], defaults: vec![N, N] },
+            TableDecl { name: "G", cols: vec!["id", "cpid"], defaults: vec![N, N] },
+        ],
+        fks: vec![
+            Fk { child: "C", cols: vec![1], parent: "P", pcols: vec![0], on_delete: Act::Cascade, on_update: Act::Cascade },
+            Fk { child: "G", cols: vec![1], parent: "C", pcols: vec![1], on_delete: Act::Cascade, on_update: gu },
+        ],
+    };
+    let ops = vec![
+        ins("P", &[&[s(1)], &[s(2)]]),
+        ins("C", &[&[s(10), s(1)]]),
+        ins("C", &[&[s(20), s(2)]]),
+        ins("G", &[&[s(1), s(1)]]),
+        ins("G", &[&[s(2), s(2)]]),
+        ins("G", &[&[s(3), s(9)]]),
+        upd("P", Pred::Eq(0, 1), 0, SetExpr::Const(s(7))),
+        upd("P", Pred::NoWhere, 0, SetExpr::Add(10)),
+        upd("C", Pred::Eq(0, 10), 1, SetExpr::Const(s(2))),
+        del("P", Pred::Eq(0, 1)),
+        del("P", Pred::NoWhere),
+        del("C", Pred::Eq(0, 20)),
+    ];
+    Cfg {
+        name: format!("uniqchain/table/g:{}", gu.label()),
+        family: "uniqchain",
+        form: "table",
+        on_delete: "CASCADE,CASCADE".into(),
+        on_update: format!("CASCADE,{}", gu.label()),
+        prelude: vec![
+            "CREATE TABLE p (id INT PRIMARY KEY)".into(),
+            "CREATE TABLE c (id INT PRIMARY KEY, pid INT UNIQUE, FOREIGN KEY (pid) REFERENCES p (id) ON DELETE CASCADE ON UPDATE CASCADE)".into(),
+            format!("CREATE TABLE g (id INT PRIMARY KEY, cpid INT, FOREIGN KEY (cpid) REFERENCES c (pid) ON DELETE CASCADE{})", act_clause(Act::NoAction, gu)),
+        ],
+        schema,
+        ops,
+    }
+}
+
 /// composite key p2(a,b) ← c(x,y); a NULL component switches the check off (MATCH SIMPLE)
 fn comp_cfg(od: Act, ou: Act) -> Cfg {
     let schema = Schema {
@@ -497,6 +541,11 @@ pub fn configs(thorough: bool) -> Vec<Cfg> {
     }
     for gu in [Act::Cascade, Act::NoAction] {
         v.push(pkfk_cfg(gu));
+    }
+    v.push(uniqchain_cfg(Act::Cascade));
+    if thorough {
+        v.push(uniqchain_cfg(Act::NoAction));
+        v.push(uniqchain_cfg(Act::SetNull));
     }
     v.push(comp_cfg(Act::Cascade, Act::Cascade));
     v.push(comp_cfg(Act::SetNull, Act::SetNull));
